@@ -214,6 +214,7 @@ Proof.
   - intros r Hw. cbn [ev_elem owf_elem] in *. destruct r as [|t|m]; cbn [refl_atom fst]; [apply null_pre|exact Hw|exact I].
   - intros m Hm Hw. rewrite ev_elem_obj. cbn [owf_elem] in Hw. destruct (Hm Hw) as [Hv _]. destruct (ev_obj c m). exact Hv.
   - intros a Ha Hw. rewrite ev_elem_arr. cbn [owf_elem] in Hw. specialize (Ha Hw). destruct (ev_arr c a). exact Ha.
+  - intros msg _. exact I.
 Qed.
 
 Lemma ev_flds_pre fs : owf_flds fs -> forall o, opre o -> opre (ev_flds c fs o).
